@@ -1,4 +1,5 @@
 import PebblesVerif.Props.C04
+import PebblesVerif.Proofs.MergeOrder
 /-!
 # C05 — conflicting service schemas are rejected, independent of service order
 
@@ -156,6 +157,28 @@ theorem C05_perm_result_partial (l l' : List MergeInput) (hp : l.Perm l') (R R' 
   · rintro ⟨i, hi, hv⟩; exact ⟨i, hp.mem_iff.mp hi, hv⟩
   · rintro ⟨i, hi, hv⟩; exact ⟨i, hp.mem_iff.mpr hi, hv⟩
 
+/-- C05, order of n services, ACCEPTANCE (partial): if every two services of the list are accepted
+    on their own, no composite non-root type is declared by three or more services (`AtMostTwo`:
+    the region the open finding C05-order-nway excludes) and root types implement no interface,
+    then the list is accepted, and so is every permutation of it. Any number of services. -/
+theorem C05_perm_partial (l l' : List MergeInput) (hp : l.Perm l') (hne : l ≠ [])
+    (hL : ∀ i ∈ l, Loaded i.schema ∧ RootsPlain i.schema)
+    (hpw : l.Pairwise (fun i j => Accepted facts [i, j])) (h2 : AtMostTwo l) :
+    Accepted facts l ∧ Accepted facts l' := by
+  rw [C05_facts] at hpw ⊢
+  refine ⟨accepted_of_pairwise l hne hL hpw h2, ?_⟩
+  have hne' : l' ≠ [] := by
+    intro he; rw [he] at hp; exact hne hp.eq_nil
+  have hL' : ∀ i ∈ l', Loaded i.schema ∧ RootsPlain i.schema := fun i hi => hL i (hp.mem_iff.mpr hi)
+  have hsym : l.Pairwise (fun i j => (Loaded i.schema ∧ Loaded j.schema) ∧ Accepted E [i, j]) :=
+    hpw.imp_of_mem (fun {a b} ha hb h => ⟨⟨(hL a ha).1, (hL b hb).1⟩, h⟩)
+  have hsym' : l'.Pairwise (fun i j => (Loaded i.schema ∧ Loaded j.schema) ∧ Accepted E [i, j]) :=
+    (hp.pairwise_iff (fun {x y} h => ⟨⟨h.1.2, h.1.1⟩, perm_two_dir h.1.1 h.1.2 h.2⟩)).mp hsym
+  refine accepted_of_pairwise l' hne' hL' (hsym'.imp (fun h => h.2)) ?_
+  intro T hb hr
+  rw [← (hp.filter (declC T)).length_eq]
+  exact h2 T hb hr
+
 /-! ## … and what is false -/
 
 /-- NEGATION of order independence for three services (repaired tree; open finding
@@ -194,6 +217,9 @@ theorem C05_perm_false_original :
 example : FieldSignatureDiffers (W.diffType[0]!).schema (W.diffType[1]!).schema :=
   ⟨W.obj "T" [W.fld "x" W.tInt], W.obj "T" [W.fld "x" W.tStr], by unfold Shared; decide, rfl, rfl, by decide,
     W.fld "x" W.tInt, by decide, W.fld "x" W.tStr, by decide, rfl, by decide, by decide⟩
+example : W.plain.Pairwise (fun i j => Accepted expected [i, j]) ∧ (∀ i ∈ W.plain, RootsPlain i.schema) := by
+  unfold W.plain; refine ⟨?_, by decide⟩
+  rw [List.pairwise_cons]; exact ⟨by decide, List.pairwise_singleton _ _⟩
 example : Accepted expected W.plain ∧ Accepted expected W.plain.reverse ∧
     (∀ i ∈ W.plain, TypesNodup i.schema ∧ FieldsNodup i.schema ∧ RootsAreObjects i.schema) := by decide
 
